@@ -132,6 +132,15 @@ def _T():
          'attrs': {'max_length': 40}, 'restate_type': True},
         {'op': 'change_field', 'model': 'B', 'name': 'fk',
          'attrs': {'db_index': True}},
+        # ---- 37.. : the index of an added relation column (fk2 -> fk2_id)
+        # dropped later in the run; a RenameField that keeps the column (no
+        # SQL of its own) followed by a change under the new name
+        {'op': 'change_field', 'model': 'B', 'name': 'fk2',
+         'attrs': {'db_index': False}},
+        {'op': 'rename_field', 'model': 'A', 'old': 'f2', 'new': 'f3',
+         'db_column': 'f2'},
+        {'op': 'change_field', 'model': 'A', 'name': 'f3',
+         'attrs': {'db_index': True}},
     ]
     for e in t:
         e['app'] = 'app1'
@@ -148,6 +157,8 @@ EXTRA_SEQS = [
     [34, 33, 36],               # field index dropped, Meta index on the same
     [34, 22, 33, 36],           # column (fk_id) added, field index restored
     [33, 34, 36],
+    [28, 22, 37],               # relation added, barrier, its index dropped
+    [38, 22, 39],               # column-keeping rename, barrier, new name used
 ]
 N_FIELD_TEMPLATES = 14      # templates 0..13 only touch fields of model A
 TEMPLATES = _T()
